@@ -148,6 +148,11 @@ def _direction(run, beam):
                 for suf in ('==0', '==0.0'):
                     if m.endswith(suf) and b:
                         zero[m[:-len(suf)]] = C(0)
+                for suf in ('!=0', '!=0.0'):
+                    if m.endswith(suf) and not b:
+                        zero[m[:-len(suf)]] = C(0)
+                if not b and all(ch.isalnum() or ch in '._' for ch in m):
+                    zero[m] = C(0)          # truthiness test of a number that turned out false
             cx, cy = want[0].subst(zero), want[1].subst(zero)
             if cx.is_const() and cx.const_value() == 0 and cy.is_const() and cy.const_value() == 0:
                 run.ok('C04-R1', 'Beam.direction shortcut', 'axis returned where both transverse components vanish: %s' % sorted(zero))
@@ -268,67 +273,63 @@ def _r3(run, beam, att):
     K = att.mod.name + '|SingleRayAttenuator|'
     fn = _m(att, '_beam_stopping')
     x, y, z, bv = [a.arg for a in fn.args.args[1:5]]
-    loops = [l for l in fn.body if isinstance(l, ast.For)]
-    run.subject('C04-R3')
-    if len(loops) != 2 or any(norm(l.iter) != 'self._stopping_data' for l in loops):
-        run.undecided('C04-R3', '_beam_stopping', 'expected two loops over the cached stopping data')
-    else:
-        XYZ = '(%s, %s, %s)' % (x, y, z)
-        e1 = EmEval({'density_sum': L('DS0')})
-        run_block(e1, loops[0].body)
-        sp = loops[0].target.elts[0].id
-        want = L('DS0') + expr('%s.charge ** 2 * %s.distribution.density%s' % (sp, sp, XYZ))
-        if e1.env.get('density_sum') is not None and e1.env['density_sum'].eq(want):
-            run.ok('C04-R3', 'sum Z^2 n', want.key())
-        else:
-            run.fail('C04-R3', K + '_beam_stopping|density-sum', att.mod.relpath, loops[0].lineno,
-                     'density_sum accumulates %s; documented: sum_j Z_j^2 n_j' % (e1.env.get('density_sum') - L('DS0') if e1.env.get('density_sum') is not None else None))
-        run.subject('C04-R3')
-        e2 = EmEval({'density_sum': L('DS'), 'stopping_coeff': L('SC0')})
-        run_block(e2, loops[1].body)
-        sp, cf = [t.id for t in loops[1].target.elts]
-        eint = 'EvAmuToMS.inv(%s - %s.distribution.bulk_velocity%s.length)' % (bv, sp, XYZ)
-        got = e2.env.get('stopping_coeff')
-        N = '%s.distribution.density%s' % (sp, XYZ)
-        T = '%s.distribution.effective_temperature%s' % (sp, XYZ)
-        call = [c for c in ast.walk(loops[1]) if isinstance(c, ast.Call) and norm(c.func) == cf + '.evaluate']
-        ok = False
-        if got is not None and call and len(call[0].args) == 3:
-            a = [e2.ev(x_) for x_ in call[0].args]
-            term = got - L('SC0')
-            ok = a[1].eq(L('DS') / L(sp + '.charge')) and a[2].eq(expr(T)) and 'EvAmuToMS.inv(' in a[0].key() and 'bulk_velocity' in a[0].key() \
-                and bv in a[0].key() and term.eq(expr(N) * L(sp + '.charge') * L('%s.evaluate(%s)' % (cf, ', '.join(v.key() for v in a))))
-        if ok:
-            run.ok('C04-R3', 'stopping term', '(Z n) coeff(E_int(|v_beam - v_i|), sum Z^2 n / Z, T_i)')
-        else:
-            run.fail('C04-R3', K + '_beam_stopping|term', att.mod.relpath, loops[1].lineno,
-                     'stopping term is %s; documented: (Z_i n_i) coeff_i(E_int, sum_j Z_j^2 n_j / Z_i, T_i)' % (got.key()[:200] if got is not None else None))
-    fn = _m(att, '_beam_attenuation')
+    from ._charged import charged_sum
+    charged_sum(run, 'C04-R3', att, fn, False, 'EvAmuToMS.inv')
+    from ..inline import propagate as _prop
+    fn0 = _m(att, '_beam_attenuation')
+    fn = _prop(fn0)
     axis, x, y, z, energy, power, mass, direction = [a.arg for a in fn.args.args[1:9]]
-    e, rec = body_env(fn)
     run.subject('C04-R3')
-    speed = e.env.get('speed')
-    bd = e.env.get('beam_density')
-    ret = [r for r in ast.walk(fn) if isinstance(r, ast.Return)]
+
+    class AttEval(EmEval):
+        def call(self, n):
+            d = dotted(n.func) or ''
+            if d in ('np.exp', 'exp') and len(n.args) == 1:
+                return L('EXP(%s)' % self.ev(n.args[0]).key())
+            if d in ('cumulative_trapezoid', 'scipy.integrate.cumulative_trapezoid', 'cumtrapz'):
+                kw = {k.arg: norm(k.value) for k in n.keywords}
+                xs = norm(n.args[1]) if len(n.args) > 1 else kw.get('x')
+                return L('CUMTRAPZ(%s; x=%s; dx=%s; initial=%s)' % (norm(n.args[0]), xs, kw.get('dx'), kw.get('initial')))
+            return super().call(n)
+    e = AttEval()
+    run_block(e, [s_ for s_ in fn.body if not isinstance(s_, ast.For)])
+    ret = [r for r in ast.walk(fn) if isinstance(r, ast.Return) and r.value is not None]
     got = e.ev(ret[-1].value) if ret else None
-    want_speed = L('EvAmuToMS.to(%s)' % energy)
-    ok = speed is not None and speed.eq(want_speed) and bd is not None and bd.eq(L(power) / L('EvToJ.to(%s*%s)' % tuple(sorted([energy, mass]))) / want_speed)
-    if not ok and bd is not None:
-        ok = speed is not None and speed.eq(want_speed) and (bd * want_speed).key().replace(' ', '') in (
-            '(%s)/(EvToJ.to(%s*%s))' % (power, energy, mass), '(%s)/(EvToJ.to(%s*%s))' % (power, mass, energy))
-    expo = [c for c in ast.walk(fn) if isinstance(c, ast.Call) and dotted(c.func) in ('np.exp', 'exp')]
-    ok2 = False
-    if expo:
-        a = expo[0].args[0]
-        txt = norm(a).replace(' ', '')
-        ok2 = txt == '-cumulative_trapezoid(stopping_coeff,%s,initial=0)/speed' % axis
-        ok2 = ok2 and isinstance(ret[-1].value, ast.BinOp) and norm(ret[-1].value.left) == 'beam_density' and ret[-1].value.right is expo[0]
-    if ok and ok2:
-        run.ok('C04-R3', 'attenuation form', '(P / EvToJ(E m)) / v * exp(-cumtrapz(S, axis, initial=0) / v), one speed v = EvAmuToMS.to(E)')
+    V = L('EvAmuToMS.to(%s)' % energy)
+    src_a = L(power) / L('EvToJ.to(%s*%s)' % (energy, mass)) / V
+    src_b = L(power) / L('EvToJ.to(%s*%s)' % (mass, energy)) / V
+    sc = [norm(t) for t, v, st in stores(fn) if isinstance(t, ast.Subscript) and isinstance(v, ast.Call) and norm(v.func) == 'self._beam_stopping']
+    scn = sc[0].split('[')[0] if sc else 'stopping_coeff'
+    if got is None:
+        run.undecided('C04-R3', 'attenuation form', 'no returned value')
     else:
-        run.fail('C04-R3', K + '_beam_attenuation|form', att.mod.relpath, fn.lineno,
-                 'attenuation is %s with speed %s and source density %s; documented: (P / EvToJ(E m)) / v * exp(-cumulative_trapezoid(S, axis, initial=0) / v)'
-                 % (norm(ret[-1].value) if ret else None, speed, bd))
+        cum = [l for l in got.leaves() if l.startswith('EXP(')]
+        form_ok = False
+        why = None
+        if len(cum) == 1:
+            inner = cum[0][4:-1]
+            want_int = 'CUMTRAPZ(%s; x=%s; dx=None; initial=0)' % (scn, axis)
+            want_exp = (C(0) - L(want_int)) / V
+            exps = [l for l in [cum[0]]]
+            if inner == want_exp.key():
+                form_ok = got.eq(src_a * L(cum[0])) or got.eq(src_b * L(cum[0]))
+                if not form_ok:
+                    why = 'the source density factor is %s' % (got / L(cum[0])).key()[:120]
+            elif 'CUMTRAPZ(' in inner and ('dx=None' not in inner or 'x=%s;' % axis not in inner):
+                why = 'the stopping coefficient is integrated as %s: not along the axis points it was sampled at (their spacing is length / (n - 1), not a constant step)' % inner[:140]
+            elif 'CUMTRAPZ(' in inner and 'initial=0' not in inner:
+                why = 'the cumulative integral has no initial=0 entry: the density table is one sample short / shifted'
+            elif 'CUMTRAPZ(' in inner:
+                why = 'the exponent is %s, documented -integral / v with the one speed v = EvAmuToMS.to(E)' % inner[:140]
+        if form_ok:
+            run.ok('C04-R3', 'attenuation form', '(P / EvToJ(E m)) / v * exp(-cumtrapz(S, axis, initial=0) / v), one speed v = EvAmuToMS.to(E)')
+        elif why:
+            run.fail('C04-R3', K + '_beam_attenuation|form', att.mod.relpath, fn0.lineno,
+                     'attenuation: %s; documented: (P / EvToJ(E m)) / v * exp(-cumulative_trapezoid(S, axis, initial=0) / v)' % why)
+        else:
+            run.undecided('C04-R3', 'attenuation form', 'returned value %s not recognised' % got.key()[:120])
+    e, rec = body_env(fn0)
+    fn = fn0
     run.subject('C04-R3')
     lp = [l for l in fn.body if isinstance(l, ast.For)]
     okl = lp and norm(lp[0].iter) == 'range(naxis)' and any(norm(s).replace(' ', '') == 'stopping_coeff[i]=self._beam_stopping(%s[i],%s[i],%s[i],beam_velocity)' % (x, y, z)
@@ -396,7 +397,7 @@ def _r3(run, beam, att):
     else:
         run.fail('C04-R3', K + '_calc_attenuation|frames', att.mod.relpath, fn0.lineno,
                  'points and direction are transformed with %s, not into plasma coordinates (beam.to(plasma)) where the species are sampled' % frames)
-    run.floor('C04-R3', 7)
+    run.floor('C04-R3', 6)
 
 
 _BN = 'cherab/core/beam/node.pyx'
@@ -419,6 +420,8 @@ MUTANTS = [
     dict(name='direction-at-source', file=_BN, find="        if z <= 0:\n            return self.BEAM_AXIS", replace="        if z < -1:\n            return self.BEAM_AXIS", expect='C04-R1'),
 ]
 TWINS = [
+    dict(name='direction-axis-when-both-divergences-are-falsy', file=_BN, find="        # calculate direction from divergence\n",
+         replace="        if not (self._tanxdiv or self._tanydiv):\n            return self.BEAM_AXIS\n        # calculate direction from divergence\n"),
     dict(name='direction-axis-when-both-divergences-are-zero', file=_BN, find="        # calculate direction from divergence\n",
          replace="        if self._tanxdiv == 0 and self._tanydiv == 0:\n            return self.BEAM_AXIS\n        # calculate direction from divergence\n"),
     dict(name='square-expanded', file=_SR, find="        sigma_x = sqrt(sigma0_sqr + (z * self._tanxdiv)**2)", replace="        sigma_x = sqrt(z * z * self._tanxdiv * self._tanxdiv + sigma0_sqr)"),
